@@ -248,6 +248,82 @@ def _observations(ctx):
             ctx.log("observation no longer reproduces: " + f[0])
 
 
+def _go_build(ctx):
+    """Harness build with a private build cache (work/C20/gocache: a trimmed or concurrently rewritten shared
+    cache must not read as "the harness no longer builds") and up to three attempts when the failure is an
+    environmental one (missing cache entries / files vanishing mid-build), never when it is a compile error in
+    the hook or the harness."""
+    import time
+    os.environ["GOCACHE"] = os.path.join(ctx.work, "gocache")
+    for attempt in range(3):
+        n = len(ctx.violations)
+        if ctx.go_build():
+            return True
+        detail = json_detail(ctx.violations[n:]) if len(ctx.violations) > n else ""
+        environmental = any(k in detail for k in ("could not import", "no such file or directory", "go-build", "cache", "signal: killed",
+                                                  "resource temporarily unavailable", "cannot allocate memory"))
+        compile_error = any(k in detail for k in ("undefined:", "cannot use", "syntax error", "declared and not used", "not enough arguments",
+                                                  "too many arguments", "has no field or method"))
+        if attempt == 2 or compile_error or not environmental:
+            return False
+        ctx.log("harness build failed for an environmental reason (attempt %d), retrying" % (attempt + 1))
+        for v in ctx.violations[n:]:
+            try:
+                os.remove(v["path"])
+            except OSError:
+                pass
+        del ctx.violations[n:]
+        time.sleep(5 * (attempt + 1))
+    return False
+
+
+def json_detail(vs):
+    import json
+    out = ""
+    for v in vs:
+        try:
+            out += json.dumps(json.load(open(v["path"])).get("replay", {}))
+        except Exception:
+            pass
+    return out
+
+
+def _apply_stream(ctx):
+    """Oracle-only stream `apply`: the REAL Run (VerifyIptablesState, GetStateFromSave, -C check rules, guardrails,
+    buildCleanupRules/UndoRules, the CleanupOnly / Reconcile / ForceApply guards, the ip6tables-detection failure
+    branch) against a stateful in-memory iptables (harness/c20/sim.go) holding a clean / identical / other
+    configuration's rules plus foreign rules; clauses on the final table content. No Lean model behind it."""
+    ops = os.path.join(ctx.work, "apply.gen.ops")
+    out = ops + ".verdict"
+    rc, log = ctx.harness("gen", "apply", ctx.seed, ctx.n(1200, 15000), ops)
+    if rc != 0 or not os.path.exists(ops):
+        ctx.tie_broken("harness-gen:apply", log)
+        return
+    rc, log = ctx.harness("oracle", "apply", ops, out)
+    if rc != 0 or not os.path.exists(out):
+        ctx.tie_broken("oracle-run:apply", log)
+        return
+    verdicts = ctx.read_lines(out)
+    lines = ctx.read_lines(ops)
+    starts = [k for k, l in enumerate(lines) if l.startswith("case")] + [len(lines)]
+    ctx.count("oracle.apply.cases", len(verdicts))
+    ctx.streams["apply"] = {"cases": len(verdicts), "ops": len(lines), "agree": True, "oracle_only": True}
+    for i, v in enumerate(verdicts):
+        if i + 1 < len(starts):
+            ctx.note_case("apply\n" + "\n".join(lines[starts[i] + 1:starts[i + 1]]), True, None)
+        if v.startswith("OBS"):
+            ctx.count("oracle.apply.observed." + v.split()[1].split(":", 1)[1])
+        elif v.startswith("FAIL"):
+            ctx.streams["apply"]["agree"] = False
+            case = _case_at(ctx, ops, i)
+            clause = v.split()[1]
+            cls = "+".join(x for x in v.split()[2:6] if "=" in x and not x.endswith("=false"))
+            ctx.violation("c20:%s:%s" % (clause, cls),
+                          "applying the rules over existing table content violates clause '%s' on the real code" % clause,
+                          {"stream": "apply", "ops": case, "oracle_verdict": v}, True)
+            break
+
+
 def _nontrivial(case_ops, case_out):
     return len(case_out) > 1 and case_out[1].startswith("ok")
 
@@ -276,13 +352,14 @@ def run(ctx):
     proved = ctx.lean_prove(THEOREMS)
     if not ctx.build_drv():
         return
-    if not ctx.go_build():
+    if not _go_build(ctx):
         return
     ctx.diff_stream("rules", ctx.n(3000, 40000), oracle=oracle, nontrivial=_nontrivial)
     ctx.diff_stream("env", ctx.n(1500, 20000), oracle=oracle, nontrivial=_nontrivial)
     ctx.diff_stream("sem", ctx.n(2000, 25000), oracle=oracle, nontrivial=_nontrivial)
     ctx.diff_stream("packets", ctx.n(4000, 60000), oracle=oracle, nontrivial=_nontrivial)
     _oracle_all(ctx)
+    _apply_stream(ctx)
     _observations(ctx)
     _live(ctx)
     # distribution of what the real rules did with the generated packets, and of the configuration classes
@@ -319,11 +396,19 @@ def replay(ctx, path):
     if not ops:
         ctx.log("replay file has no ops; re-running the full check")
         return run(ctx)
-    if not (ctx.build_drv() and ctx.go_build()):
+    if not (ctx.build_drv() and _go_build(ctx)):
         return
     p = os.path.join(ctx.work, "replay.ops")
     with open(p, "w") as f:
         f.write("\n".join(ops) + "\n")
+    if stream == "apply":   # oracle-only stream
+        out = p + ".verdict"
+        rc, log = ctx.harness("oracle", "apply", p, out)
+        for v in (ctx.read_lines(out) if rc == 0 and os.path.exists(out) else []):
+            if v.startswith("FAIL"):
+                ctx.violation(obj.get("fingerprint", "c20:" + v.split()[1]), obj.get("what", v), {"stream": "apply", "ops": ops, "oracle_verdict": v}, True)
+        ctx.note_case("apply-replay", True, None)
+        return
     ok, impl, model, log = ctx.run_pair(stream, p, "replay")
     m = ctx.compare(stream, p, impl, model)[2] if ok else None
     found = oracle(ctx, stream, ops, m.to_json() if m else None)
